@@ -347,6 +347,7 @@ func (ex *Explorer) runPath(s *sym.Solver, prefix []Decision, wc *workerCache) (
 		in.flushAsserts()
 		res.End = "done"
 	}()
+	in.killThreads()
 	if len(in.pending) > 0 {
 		// the path ended early (assume/exit/panic): assertions made before that still count
 		func() {
